@@ -70,22 +70,38 @@ fn worker_run(args: &Args, progress: Arc<AtomicU64>, current: Arc<Mutex<String>>
         *current.lock().unwrap() = head.clone();
         progress.fetch_add(1, Ordering::SeqCst);
         // shared simplifier instances
-        let shared: Result<Vec<ExprRef>, String> = guarded(|| {
+        // the cache of each instance after the whole history (hook verif_cache_entries), compared entry by entry
+        // with the cache of the extracted memoising driver model
+        let shared_all: Result<(Vec<ExprRef>, Vec<(ExprRef, ExprRef)>), String> = guarded(|| {
             let mut s = Simplifier::new(SparseExprMap::default());
             let mut res = vec![exprs[0]; exprs.len()];
             for &i in order.iter() {
                 res[i] = s.simplify(&mut ctx, exprs[i]);
             }
-            res
+            (res, s.verif_cache_entries())
         });
-        let dense: Result<Vec<ExprRef>, String> = guarded(|| {
+        let dense_all: Result<(Vec<ExprRef>, Vec<(ExprRef, ExprRef)>), String> = guarded(|| {
             let mut s = Simplifier::new(DenseExprMetaData::default());
             let mut res = vec![exprs[0]; exprs.len()];
             for &i in order.iter().rev() {
                 res[i] = s.simplify(&mut ctx, exprs[i]);
             }
-            res
+            (res, s.verif_cache_entries())
         });
+        let dump_cache = |name: &str, entries: &Vec<(ExprRef, ExprRef)>, ctx: &Context| -> String {
+            let total: usize = entries.iter().map(|(k, v)| tree_size(ctx, *k, 4000) + tree_size(ctx, *v, 4000)).sum();
+            if total > 6000 {
+                format!("({name} skipped)")
+            } else {
+                format!("({name} {})", entries.iter().map(|(k, v)| format!("({} {})", dump_expr(ctx, *k), dump_expr(ctx, *v))).collect::<Vec<_>>().join(" "))
+            }
+        };
+        let caches_txt = match (&shared_all, &dense_all) {
+            (Ok((_, cs)), Ok((_, cd))) => format!("{} {}", dump_cache("cache-sparse", cs, &ctx), dump_cache("cache-dense", cd, &ctx)),
+            _ => String::new(),
+        };
+        let shared: Result<Vec<ExprRef>, String> = shared_all.map(|x| x.0);
+        let dense: Result<Vec<ExprRef>, String> = dense_all.map(|x| x.0);
         let fresh: Result<Vec<ExprRef>, String> = guarded(|| exprs.iter().map(|e| simplify_single_expression(&mut ctx, *e)).collect());
         let line = match (&shared, &dense, &fresh) {
             (Ok(s), Ok(d), Ok(f)) => {
@@ -98,11 +114,12 @@ fn worker_run(args: &Args, progress: Arc<AtomicU64>, current: Arc<Mutex<String>>
                     Err(_) => "(again (panic))".to_string(),
                 };
                 format!(
-                    "{head} (shared {}) {} {} {} (timeout no))",
+                    "{head} (shared {}) {} {} {} {} (timeout no))",
                     s.iter().map(|e| dump_expr(&ctx, *e)).collect::<Vec<_>>().join(" "),
                     cmp("dense", d, &ctx),
                     cmp("fresh", f, &ctx),
-                    again_txt
+                    again_txt,
+                    caches_txt
                 )
             }
             _ => {
